@@ -36,6 +36,10 @@ macro_rules! value_eq { ($($t:ty),*) => { $(
 )* } }
 value_eq!(CA, CB, RA, RB);
 impl ReactResource for RB {}
+/// A reactive resource type that no engine ever inserts: triggers and registrations for it must behave like any other.
+#[derive(Debug, Clone, Default)]
+pub struct RC(pub u8);
+impl ReactResource for RC {}
 
 //-------------------------------------------------------------------------------------------------------------------
 // Payloads: not Clone, Drop is logged.
